@@ -417,4 +417,42 @@ theorem C15_complete_R3a_validate (input : DataType) (k : Kind) (a : TraitAttrCo
   rw [hsplit]
   exact C15_complete_R3a pre post a es herr
 
+/-! ### level dispatch (*tables*, regenerated): which names are instructions at which level, and what a name written at
+the wrong level is answered with -/
+
+def armKindOf (arms : List Gen.Arm) (n : String) (own bark : Bool) : Option Gen.ArmKind := (findArm arms n own bark).map (·.kind)
+
+/-- names that are instructions only at member / variant level -/
+def memberOnlyNames : List String := ["parent", "as_type", "literal", "pattern", "repeat", "skip_repeat", "stop_repeat", "type_hint"]
+/-- names that are instructions only at type level -/
+def typeOnlyNames : List String := ["where_clause", "allow_unknown"]
+
+/-- C15 (R5/R6, dispatch): (1) a member-level name written at type level, and a type-level name written on a member, is
+    answered with the *misplaced* diagnostic whenever diagnostics are on (`bark`), in the bare spelling and inside
+    `#[o2o(..)]` alike, and is ignored as a foreign attribute only when written bare after `allow_unknown`;
+    (2) the near-miss names get the documented suggestion (`children`/`child` → `child_parents` and `ghost*` → `ghosts*`
+    at type level, `children`/`child_parents` → `child` at member level); (3) every real instruction is accepted in every
+    spelling, `allow_unknown` only inside `#[o2o(..)]`; (4) any other name is an error inside `#[o2o(..)]` and a foreign
+    attribute when bare -/
+theorem C15_level_dispatch :
+    (memberOnlyNames.all (fun n => [true, false].all fun own =>
+        armKindOf Gen.typeArms n own true == some .misplaced && armKindOf Gen.typeArms n false false == some .unrecognized)
+     && typeOnlyNames.all (fun n => [true, false].all fun own =>
+        armKindOf Gen.memberArms n own true == some .misplaced && armKindOf Gen.memberArms n false false == some .unrecognized)
+     && [("children", "child_parents"), ("child", "child_parents"), ("ghost", "ghosts"), ("ghost_ref", "ghosts_ref"), ("ghost_owned", "ghosts_owned")].all
+          (fun (n, g) => [true, false].all fun own => armKindOf Gen.typeArms n own true == some (.misnamed g))
+     && [("children", "child"), ("child_parents", "child")].all
+          (fun (n, g) => [true, false].all fun own => armKindOf Gen.memberArms n own true == some (.misnamed g))
+     && [("child_parents", Gen.ArmKind.childParents), ("where_clause", .whereClause), ("ghosts", .ghosts), ("ghosts_owned", .ghosts), ("ghosts_ref", .ghosts)].all
+          (fun (n, k) => [true, false].all fun own => [true, false].all fun bark => armKindOf Gen.typeArms n own bark == some k)
+     && [("child", Gen.ArmKind.child), ("parent", .parent), ("as_type", .asType), ("literal", .lit), ("pattern", .pat), ("repeat", .repeat_),
+         ("skip_repeat", .skipRepeat), ("stop_repeat", .stopRepeat), ("type_hint", .typeHint), ("ghost", .ghost), ("ghost_owned", .ghost),
+         ("ghost_ref", .ghost), ("ghosts", .ghosts), ("ghosts_owned", .ghosts), ("ghosts_ref", .ghosts)].all
+          (fun (n, k) => [true, false].all fun own => [true, false].all fun bark => armKindOf Gen.memberArms n own bark == some k)
+     && [true, false].all (fun bark => armKindOf Gen.typeArms "allow_unknown" true bark == some .allowUnknown
+          && armKindOf Gen.typeArms "allow_unknown" false bark == some .unrecognized)
+     && [Gen.typeArms, Gen.memberArms].all (fun arms => [true, false].all fun bark =>
+          armKindOf arms "zq_no_such_instruction" true bark == some .unrecognizedWithError
+          && armKindOf arms "zq_no_such_instruction" false bark == some .unrecognized)) = true := by decide
+
 end O2o
